@@ -251,19 +251,21 @@ PLANS["X07"] = dict(
 def run_x08(ctx):
     ctx.mc("SmartWrapMC", "SmartWrapMC_%s.cfg" % ctx.tier, workers=8,
            note="the walk of smartWrap (sorted endpoints, used flags, jump behind the appended piece) yields exactly the cycles of 'end -> next start' on every valid configuration")
+    if ctx.tier == "thorough":
+        ctx.mc("SmartWrapMC", "SmartWrapMC_quick.cfg", workers=8, note="the same for <=4 pieces on 8 positions")
     ctx.mc_expect_violation("SmartWrapMC", "SmartWrapMC_bad.cfg", "WalkOK", workers=8,
                             note="non-vacuity: a walk that does not jump behind the appended piece's end violates WalkOK")
     cases = ctx.tlcgen("SmartWrapMC", "SmartWrapGen_%s.cfg" % ctx.tier, workers=8)
     shards = ctx.gen("smartwrap", cases=cases)
     ctx.validate("SmartWrap_Trace", shards)
     ctx.exhaustive = True
-    ctx.notes.append("exhaustive part: every valid configuration of <=4 pieces on 8 (quick) / 12 (thorough) outline positions, both windings")
+    ctx.notes.append("exhaustive part: every valid configuration of <=4 pieces on 8 outline positions (quick) / <=3 pieces on 12 (thorough), both windings")
 
 
 PLANS["X08"] = dict(
     run=run_x08, signature=sig_default,
     technique="TLA+ state machine of smartclip.smartWrap (endpoint array sorted around the box outline, used flags, current ring, jump to endpoint.OtherEnd); TLC checks it against 'cycles of end -> next start' on every valid piece configuration and emits the configurations; each is built as real rings and clipped by the real code",
-    level_text="extended coverage (no listed property): for every configuration of <=4 pieces with distinct endpoints on 8 (12) outline positions that can come from disjoint simple rings (chords do not cross, after every end the next endpoint is a start) TLC explores the walk of smartWrap step by step and requires that it ends with every piece in exactly one ring and the rings equal to the cycles of 'end -> next start'; a variant without the jump behind the appended piece must violate this. Each configuration is then replayed: its cycles become real rings (pieces as chords of the box with one inner vertex, joined outside the box along the outline), clipped through Ring / Polygon / MultiPolygon / Geometry counter-clockwise and - mirrored - clockwise, and TLC requires the pieces found along each result polygon, in order, to be exactly the spec's cycles, each ring closed, inside the box and wound as asked.",
+    level_text="extended coverage (no listed property): for every configuration of <=4 pieces with distinct endpoints on 8 outline positions (thorough: also <=3 pieces on 12) that can come from disjoint simple rings (chords do not cross, after every end the next endpoint is a start) TLC explores the walk of smartWrap step by step and requires that it ends with every piece in exactly one ring and the rings equal to the cycles of 'end -> next start'; a variant without the jump behind the appended piece must violate this. Each configuration is then replayed: its cycles become real rings (pieces as chords of the box with one inner vertex, joined outside the box along the outline), clipped through Ring / Polygon / MultiPolygon / Geometry counter-clockwise and - mirrored - clockwise, and TLC requires the pieces found along each result polygon, in order, to be exactly the spec's cycles, each ring closed, inside the box and wound as asked.",
     level_note="General position only (all endpoint positions differ): coinciding endpoints are the recorded finding of C16. The sort itself is not modelled (for more than 12 endpoints Go's sort is not an insertion sort); configurations have at most 8 endpoints.",
     rule="one event = one real call on the rings of one configuration; distinct = distinct event text", assumptions=[], trusted_base=["TLC 2026.09.04", "CommunityModules Json/IOUtils", "harness lattice projection"],
 )
